@@ -29,7 +29,7 @@ func DefaultFileCfg() FileCfg {
 	return FileCfg{CF: cf, MaxTops: 6, Texts: true, Movements: true, Marts: true, Maps: true, Raws: true, Format: true, MultiPart: true, Typed: true}
 }
 
-var textPool = []string{"Hello", "Hello$", "Hi there$", "Hi there", "Bye now$", "Bye now", "A {PLAYER} appears", "é ß ü", `Line one\nLine two`, `Wait\pMore`, "x", "Some longer text that needs wrapping when it is formatted for the box", "Ends in dollar$", "100% sure", "5%% %s %d", ""}
+var textPool = []string{"Hello", "Hello$", "Hi there$", "Hi there", "Bye now$", "Bye now", "A {PLAYER} appears", "é ß ü", `Line one\nLine two`, `Wait\pMore`, "x", "Some longer text that needs wrapping when it is formatted for the box", "Ends in dollar$", "100% sure", "5%% %s %d", "", "Two lines\n\t\tin one literal", "Two lines in one literal", "CR LF\r\n  inside", "CR LF inside"}
 var stepPool = []string{"walk_up", "walk_down", "walk_left", "face_right", "delay_16", "jump_2_up", "step_end"}
 var itemPool = []string{"ITEM_POTION", "ITEM_ANTIDOTE", "ITEM_REPEL", "ITEM_NONE", "ITEM_POKE_BALL", "ITEM_RARE_CANDY"}
 var stringTypes = []string{"ascii", "braille", "custom"}
@@ -95,13 +95,21 @@ func (g *fileGen) textVal() *TextVal {
 	v := &TextVal{Lit: g.strLit()}
 	if g.cfg.Format && rapid.IntRange(0, 3).Draw(g.t, "format") == 0 {
 		v.Format = true
-		switch rapid.IntRange(0, 4).Draw(g.t, "fparams") {
+		// few distinct lengths, so that the same text is often formatted twice with the same font and
+		// length but another numLines / cursorOverlapWidth (they must not share a label unless the results agree)
+		flen := func() string { return fmt.Sprint(rapid.SampledFrom([]int{40, 60, 100, 208}).Draw(g.t, "flen")) }
+		switch rapid.IntRange(0, 5).Draw(g.t, "fparams") {
 		case 0:
 			v.Params = []*FParam{{Val: `"1_latin_rse"`}}
 		case 1:
-			v.Params = []*FParam{{Val: `"1_latin_frlg"`}, {Val: fmt.Sprint(rapid.IntRange(40, 200).Draw(g.t, "flen"))}}
+			v.Params = []*FParam{{Val: `"1_latin_frlg"`}, {Val: flen()}}
 		case 2:
-			v.Params = []*FParam{{Name: "numLines", Val: fmt.Sprint(rapid.IntRange(1, 3).Draw(g.t, "fnl"))}, {Name: "maxLineLength", Val: fmt.Sprint(rapid.IntRange(40, 200).Draw(g.t, "flen"))}}
+			v.Params = []*FParam{{Name: "numLines", Val: fmt.Sprint(rapid.IntRange(1, 3).Draw(g.t, "fnl"))}, {Name: "maxLineLength", Val: flen()}}
+		case 3:
+			v.Params = []*FParam{{Val: `"1_latin_frlg"`}, {Val: flen()}, {Name: "numLines", Val: fmt.Sprint(rapid.IntRange(1, 3).Draw(g.t, "fnl"))}}
+			if rapid.Bool().Draw(g.t, "fov") {
+				v.Params = append(v.Params, &FParam{Name: "cursorOverlapWidth", Val: fmt.Sprint(rapid.SampledFrom([]int{1, 10, 30}).Draw(g.t, "fovw"))})
+			}
 		}
 	}
 	return v
